@@ -28,7 +28,7 @@ ROOT = os.path.dirname(os.path.dirname(os.path.abspath(__file__)))
 
 FINDING_ABSENT = "absent-label-matcher"
 FINDING_WIDTH = "more-than-8-matchers"
-FINDING_FLOAT = "float-literal-6-decimals"
+FINDING_ORACLE = "oracle-disagreement"      # not a recorded finding: a hit is reported as a violation
 
 
 def ml_str(s):
@@ -246,7 +246,7 @@ def run_semantic(ck, text_cases):
             if guards or not d["same"]:
                 violations.append(rep)
             else:
-                fid = FINDING_WIDTH if not v["width"] else FINDING_ABSENT if not d["absent"] else FINDING_FLOAT
+                fid = FINDING_WIDTH if not v["width"] else FINDING_ABSENT if not d["absent"] else FINDING_ORACLE
                 findings_hit.setdefault(fid, []).append(rep)
     unbound = [byid[i]["query"] for i, v in res.items() if not v["wrefs"]]
     ck.obligation("every WithRef of the model's SELECT carries the query that the WITH list binds to its alias (%d plans)" % len(res),
@@ -324,7 +324,7 @@ def run_replay(ck):
     if bad and (guards or not d["same"]):
         ck.violation(dict(r, expected=d.get("want"), got=d.get("got"), sql=enriched[0]["sql"][0]))
     elif bad:
-        fid = FINDING_WIDTH if not v["width"] else FINDING_ABSENT if not d["absent"] else FINDING_FLOAT
+        fid = FINDING_WIDTH if not v["width"] else FINDING_ABSENT if not d["absent"] else FINDING_ORACLE
         if fid in ck.known_findings():
             ck.obligations.pop()
             ck.report_known(fid, "%s -> expected %d rows, got %s" % (r["query"], len(d.get("want") or []), len(d["got"]) if d.get("got") is not None else "-"))
